@@ -7,5 +7,9 @@ Group == [sid |-> sid, iid |-> iid, sig |-> Sig(sid),
           ign |-> [names |-> Ign(iid).names, idx |-> Ign(iid).idx, star |-> Ign(iid).star, dstar |-> Ign(iid).dstar],
           calls |-> {c \in Calls : Valid(Sig(sid), c)}]
 Emit == ph = 0 => PrintT(<<"GROUP", ToJson(Group)>>)
+\* the same with the calls Python rejects as well (a parameter given twice, a missing or unknown argument): the decorated
+\* function must reject them too, whatever valid calls have left in the cache
+GroupAll == [Group EXCEPT !.calls = Calls]
+EmitAll == ph = 0 => PrintT(<<"GROUP", ToJson(GroupAll)>>)
 GSpec == Init /\ [][FALSE]_vars
 =============================================================================
